@@ -425,6 +425,7 @@ var stems6 = []netip.Addr{
 type gen struct {
 	r       *rand.Rand
 	prefill []netip.Prefix // inserted first by the next history
+	owners  []int          // owners of the prefill entries (random if shorter)
 }
 
 // history over a pool of prefixes
@@ -480,11 +481,15 @@ func (g *gen) history(pool []netip.Prefix, npeers, n int, hostBits float64, remo
 		k := ks[r.Intn(len(ks))]
 		return k, cur[k], true
 	}
-	for _, pf := range g.prefill {
-		emit(kInsert, pf, r.Intn(npeers))
+	for i, pf := range g.prefill {
+		if i < len(g.owners) {
+			emit(kInsert, pf, g.owners[i]%npeers)
+		} else {
+			emit(kInsert, pf, r.Intn(npeers))
+		}
 	}
 	n += len(g.prefill)
-	g.prefill = nil
+	g.prefill, g.owners = nil, nil
 	for len(ops) < n {
 		x := r.Intn(100)
 		switch {
@@ -681,6 +686,19 @@ func (g *gen) one(tier string) Case {
 		}
 		c.NPeers = 2 + r.Intn(6)
 		c.Ops = g.history(pool, c.NPeers, 10+r.Intn(50), 0.5, r.Intn(4) == 0)
+	case x < 80:
+		// special address VALUES: IPv4-mapped / IPv4-compatible IPv6 next to the same IPv4 prefixes (different
+		// owners; the two tables are told apart by address LENGTH only), all-zero, all-ones, loopback, link-local,
+		// multicast, NAT64, 6to4
+		c.Gen = "special"
+		pool := g.specialPool()
+		c.NPeers = 3 + r.Intn(3)
+		for i := range pool {
+			g.prefill = append(g.prefill, pool[i])
+			g.owners = append(g.owners, i)
+		}
+		crossProb = 1
+		c.Ops = g.history(pool, c.NPeers, 4+r.Intn(24), 0.3, r.Intn(5) == 0)
 	case x < 90:
 		f := 4 + 2*r.Intn(2)
 		c.Gen = fmt.Sprintf("tiny%d", f)
@@ -707,7 +725,66 @@ func (g *gen) one(tier string) Case {
 	}
 	c.Init = r.Intn(8) == 0
 	g.finish(&c)
+	crossProb = 0.15
 	return c
+}
+
+// share of the IPv4 probe addresses that are also looked up in their 16-byte IPv4-mapped and IPv4-compatible form
+// (and IPv4-mapped 16-byte probes in their 4-byte form)
+var crossProb = 0.15
+
+func mustPrefix(s string) netip.Prefix {
+	pf := netip.MustParsePrefix(s)
+	return masked(pf.Addr(), pf.Bits())
+}
+
+func (g *gen) specialPool() []netip.Prefix {
+	r := g.r
+	var q [4]byte
+	switch r.Intn(5) {
+	case 0:
+		q = [4]byte{10, 0, 0, 1}
+	case 1:
+		q = [4]byte{255, 255, 255, 255}
+	case 2:
+		q = [4]byte{0, 0, 0, 0}
+	default:
+		r.Read(q[:])
+	}
+	v4 := netip.AddrFrom4(q)
+	mapped := netip.AddrFrom16(v4.As16()) // ::ffff:a.b.c.d, 16 bytes
+	var cb [16]byte
+	copy(cb[12:], q[:])
+	compat := netip.AddrFrom16(cb) // ::a.b.c.d
+	var sixto4 [16]byte
+	sixto4[0], sixto4[1] = 0x20, 0x02
+	copy(sixto4[2:], q[:])
+	var nat64 [16]byte
+	copy(nat64[:], []byte{0, 0x64, 0xff, 0x9b})
+	copy(nat64[12:], q[:])
+	// the mapped group: the same prefix in three dresses, consecutive (so: different owners)
+	core := []netip.Prefix{
+		masked(v4, 32), masked(mapped, 128), masked(compat, 128),
+		masked(v4, 16), masked(mapped, 112), masked(compat, 112),
+		masked(v4, 24), masked(mapped, 120),
+		mustPrefix("::ffff:0:0/96"), mustPrefix("0.0.0.0/0"), mustPrefix("::/0"), mustPrefix("::/96"),
+	}
+	extra := []netip.Prefix{
+		mustPrefix("0.0.0.0/32"), mustPrefix("255.255.255.255/32"), mustPrefix("255.255.255.254/31"), mustPrefix("127.0.0.0/8"),
+		mustPrefix("169.254.0.0/16"), mustPrefix("224.0.0.0/4"), mustPrefix("240.0.0.0/4"), mustPrefix("0.0.0.0/8"),
+		mustPrefix("::/128"), mustPrefix("::1/128"), mustPrefix("ffff:ffff:ffff:ffff:ffff:ffff:ffff:ffff/128"),
+		mustPrefix("ffff:ffff:ffff:ffff:ffff:ffff:ffff:fffe/127"), mustPrefix("fe80::/10"), mustPrefix("fe80::/64"),
+		mustPrefix("fe80::1/128"), mustPrefix("ff00::/8"), mustPrefix("ff02::1/128"), mustPrefix("::/80"), mustPrefix("::ffff:0:0/95"),
+		mustPrefix("::ffff:255.255.255.255/128"), mustPrefix("::ffff:0.0.0.0/128"), mustPrefix("::ffff:0:0:0/96"),
+		masked(netip.AddrFrom16(sixto4), 48), masked(netip.AddrFrom16(nat64), 128), mustPrefix("64:ff9b::/96"),
+	}
+	var pool []netip.Prefix
+	for _, p := range core {
+		if r.Intn(10) < 8 {
+			pool = append(pool, p)
+		}
+	}
+	return append(pool, sample(r, extra, 2+r.Intn(8))...)
 }
 
 // observation points and probe addresses
@@ -762,6 +839,24 @@ func probesFor(r *rand.Rand, ops []Op, max int) []string {
 			r.Read(b)
 			add(addrFrom(f, b))
 			add(addrFrom(f, make([]byte, 16)))
+			add(addrFrom(f, []byte{255, 255, 255, 255, 255, 255, 255, 255, 255, 255, 255, 255, 255, 255, 255, 255}))
+		}
+	}
+	// the same 32 bits in the other table's dress: a.b.c.d <-> ::ffff:a.b.c.d (and ::a.b.c.d)
+	for _, a := range append([]netip.Addr{}, out...) {
+		switch {
+		case a.Is4() && r.Float64() < crossProb:
+			add(netip.AddrFrom16(a.As16()))
+			var cb [16]byte
+			q := a.As4()
+			copy(cb[12:], q[:])
+			add(netip.AddrFrom16(cb))
+		case a.Is4In6():
+			add(a.Unmap())
+			var cb [16]byte
+			q := a.Unmap().As4()
+			copy(cb[12:], q[:])
+			add(netip.AddrFrom16(cb))
 		}
 	}
 	sort.Slice(out, func(i, j int) bool { return out[i].Less(out[j]) })
